@@ -5,8 +5,10 @@ import (
 	"fmt"
 	"strings"
 
+	"github.com/mit-pdos/go-journal/addr"
 	"github.com/mit-pdos/go-journal/alloc"
 	"github.com/mit-pdos/go-journal/common"
+	"github.com/mit-pdos/go-nfsd/fstxn"
 	"github.com/mit-pdos/go-nfsd/nfs"
 	"github.com/mit-pdos/go-nfsd/super"
 )
@@ -126,6 +128,43 @@ func mkfsOne(sz uint64, fill bool) (line string, oracle string) {
 	}
 	if uint64(len(seen)) != want {
 		return line, fmt.Sprintf("size %d: %d blocks allocatable, data region has %d", sz, len(seen), want)
+	}
+	// ... and through the allocator of a RUNNING server (built by fstxn.MkFsState from the bitmap
+	// on disk): what it hands out together with what the fresh file system uses (the root
+	// directory's block) is the data region, block for block
+	var st *fstxn.FsState
+	var srv *nfs.Nfs
+	if !guardedCall(func() {
+		srv = nfs.MakeNfs(NewSparseDisk(sz))
+		st = srv.VerifFsState()
+	}) {
+		return line, fmt.Sprintf("size %d: the format is accepted but a server does not start on it", sz)
+	}
+	defer func() { guardedCall(func() { srv.ShutdownNfs() }) }()
+	inUse := map[uint64]bool{}
+	for k := uint64(0); k < s.NBlockBitmap; k++ {
+		blk := st.Txn.Load(addr.MkAddr(uint64(s.BitmapBlockStart())+k, 0), common.NBITBLOCK).Data
+		for b := uint64(0); b < common.NBITBLOCK; b++ {
+			if blk[b/8]&(1<<(b%8)) != 0 {
+				inUse[k*common.NBITBLOCK+b] = true
+			}
+		}
+	}
+	got := map[uint64]bool{}
+	for i := uint64(0); i <= want+1; i++ {
+		n := st.Balloc.AllocNum()
+		if n == 0 {
+			break
+		}
+		if n < uint64(s.DataStart()) || n >= sz || inUse[n] || got[n] {
+			return line, fmt.Sprintf("size %d: the running server's allocator handed out block %d (data region [%d,%d), in use on disk: %v, handed out before: %v)", sz, n, s.DataStart(), sz, inUse[n], got[n])
+		}
+		got[n] = true
+	}
+	for b := uint64(s.DataStart()); b < sz; b++ {
+		if !got[b] && !inUse[b] {
+			return line, fmt.Sprintf("size %d: block %d of the data region [%d,%d) is free on disk but the running server's allocator never hands it out (%d handed out, %d in use)", sz, b, s.DataStart(), sz, len(got), len(inUse))
+		}
 	}
 	return
 }
